@@ -52,4 +52,6 @@ Dr7Table == \A f \in [Slots -> SlotCfg] :
 Dr7Anchor == LET f == [i \in Slots |-> IF i = 0 THEN [on |-> TRUE, size |-> 8, cond |-> "w"]
                                        ELSE [on |-> FALSE, size |-> 0, cond |-> "-"]]
              IN Dr7Lo(ImgOf(f)) = 257 /\ Dr7Hi(ImgOf(f)) = 9
+\* the table is printed exactly once: while evaluating the constraint on the initial state
+Dr7Stop == IF nops = 0 THEN Dr7Table /\ FALSE ELSE FALSE
 =============================================================================
